@@ -68,6 +68,22 @@ Finish(vs, rs) ==
   ELSE IF vs.range < rs.hi - rs.lo THEN [ok |-> FALSE, err |-> "MaxOracleTimestampsRangeExceeded", some |-> FALSE]
   ELSE [ok |-> TRUE, err |-> "", some |-> rs.slot # -1]
 
+(* states/oracle/time.rs + Oracle::validate_time: what an executing operation requires of the loaded price
+   set.  rs is the oracle's range (min/max adjusted timestamp, min slot) as set by update_oracle_ts_and_slot;
+   tgt = [after, before, slot], each [some, v]  (oracle_updated_after / _before / _after_slot).
+   Returns the error name, "" = accepted.  Order as in the code: range sanity, slot, min ts, max ts. *)
+ValidateTime(rs, tgt) ==
+  IF rs.has /\ rs.hi < rs.lo THEN "InvalidOracleTimestampsRange"
+  ELSE IF ~rs.has THEN "InvalidOracleTimestampsRange"                  \* cleared oracle: max = i64::MIN < min = i64::MAX
+  ELSE IF rs.slot = -1 THEN "OracleNotUpdated"
+  ELSE IF tgt.slot.some /\ rs.slot < tgt.slot.v THEN "InvalidOracleSlot"
+  ELSE IF tgt.after.some /\ rs.lo < tgt.after.v THEN "OracleTimestampsAreSmallerThanRequired"
+  ELSE IF tgt.before.some /\ tgt.before.v < rs.hi THEN "OracleTimestampsAreLargerThanRequired"
+  ELSE ""
+NoBound == [some |-> FALSE, v |-> 0]
+(* MaxAgeValidator: updated after now - max_age, nothing else *)
+MaxAgeTarget(now, maxAge) == [after |-> [some |-> TRUE, v |-> now - maxAge], before |-> NoBound, slot |-> NoBound]
+
 (* SmallPrices::from_price *)
 SmallPricesFromPrice(p) ==
   IF p.minm # p.maxm THEN "InvalidArgument"
